@@ -62,12 +62,15 @@ def fresh_hash(mb, rec, cr):
         return "RAISE " + type(e).__name__
 
 
-def subprocess_hash(mb, rec, cr, hashseed):
+def subprocess_hash(mb, rec, cr, hashseed, large=False):
     with tempfile.NamedTemporaryFile(suffix=".pkl", delete=False) as f:
         pickle.dump((mb, rec, cr), f)
         path = f.name
     try:
         env = dict(os.environ, PYTHONHASHSEED=str(hashseed), TF_CPP_MIN_LOG_LEVEL="3")
+        env.pop(ENVVAR, None)
+        if large:
+            env[ENVVAR] = "0"
         out = subprocess.run(["/venv/bin/python", "-c", CHILD, path, str(common.REPO)], capture_output=True, text=True, env=env, timeout=300)
         lines = [l for l in out.stdout.splitlines() if l.startswith(("OK", "RAISE"))]
         return lines[-1] if lines else "CHILD-FAILED " + out.stderr[-200:]
@@ -75,8 +78,34 @@ def subprocess_hash(mb, rec, cr, hashseed):
         os.unlink(path)
 
 
+ENVVAR = "AI_EDGE_QUANTIZER_VERIF_LARGE_MODEL_THRESHOLD"
+_DEFAULT_POLICY_FILE = [None]
+
+
+def policy_file(which):
+    """path of a policy JSON: the shipped example policy, or the default policy written to a scratch file (the public API loads
+    policies from files only)"""
+    from ai_edge_quantizer import default_policy, quantizer as qm
+    if which == "example":
+        return os.path.join(os.path.dirname(qm.__file__), "policies", "example_config_policy.json")
+    if _DEFAULT_POLICY_FILE[0] is None:
+        f = tempfile.NamedTemporaryFile("w", suffix=".json", delete=False)
+        f.write(default_policy.DEFAULT_JSON_POLICY)
+        f.close()
+        _DEFAULT_POLICY_FILE[0] = f.name
+    return _DEFAULT_POLICY_FILE[0]
+
+
 def history_case(ctx, drv, rng, i, n_sub):
+    try:
+        return _history_case(ctx, drv, rng, i, n_sub)
+    finally:
+        fp.restore_policy({"policy": True})   # load_config_policy is process-global
+
+
+def _history_case(ctx, drv, rng, i, n_sub):
     case = fp.gen_case(rng, i, n_samples=2)
+    case.late = None
     mb = case.mb
     mb_before = bytes(mb)
     qs = [quantizer.Quantizer(mb), quantizer.Quantizer(mb)]
@@ -91,15 +120,23 @@ def history_case(ctx, drv, rng, i, n_sub):
     # scripted prefixes that need a specific order to manifest, followed by random steps
     names = [n for sc in pl.scopes_of(mb) for n in sc.split(";") if n]
     script = []
-    if i % 3 == 0:
+    if i % 4 == 0:
         script = ["load", "calibrate", "quantize", "calibrate", "quantize"]          # same recipe, new statistics
-    elif i % 3 == 1:
+    elif i % 4 == 1:
         script = ["load", "calibrate", "quantize", "exclude", "quantize"]            # '*' rule under a new regex after a lookup
+    elif i % 4 == 2:
+        # another config-check policy is in force while the object resolves rules, then the default one comes back
+        script = ["load", "policy_example", "calibrate", "policy_default", "calibrate", "quantize"]
     steps = script + [None] * rng.randint(2, 6)
     for forced in steps:
         k = 0 if forced else rng.choice([0, 0, 1])
         q = qs[k]
-        act = forced or rng.choice(["recipe", "load", "calibrate", "quantize", "quantize", "validate"])
+        act = forced or rng.choice(["recipe", "load", "load_short", "calibrate", "quantize", "quantize", "validate", "policy_example", "policy_default"])
+        if act in ("policy_example", "policy_default"):
+            q.load_config_policy(policy_file(act.split("_")[1]))
+            log.append((k, act))
+            ctx.tag(act)
+            continue
         if act == "exclude":
             import re as _re
             try:
@@ -118,6 +155,22 @@ def history_case(ctx, drv, rng, i, n_sub):
                 q.load_quantization_recipe(rec_in)
                 if rec_in != rec:
                     return fail("load_quantization_recipe modified the recipe passed in", "recipe-mutated")
+            elif act == "load_short":
+                # the short form of a rule (no op_config for no_quantize) is legal input; whatever is passed in must come back unchanged,
+                # through load_quantization_recipe and through the constructor
+                rec = [{"regex": ".*", "operation": "*", "algorithm_key": "min_max_uniform_quantize",
+                        "op_config": {"weight_tensor_config": {"num_bits": 8, "symmetric": True, "granularity": "CHANNELWISE", "dtype": "INT", "block_size": 0},
+                                      "compute_precision": "INTEGER", "explicit_dequantize": False, "skip_checks": False}},
+                       {"regex": rng.choice(names) if names else "x", "operation": "*", "algorithm_key": "no_quantize"}]
+                rec_in = copy.deepcopy(rec)
+                q.load_quantization_recipe(rec_in)
+                if rec_in != rec:
+                    return fail("load_quantization_recipe modified the recipe passed in", "recipe-mutated")
+                rec_in2 = copy.deepcopy(rec)
+                quantizer.Quantizer(mb, rec_in2)
+                if rec_in2 != rec:
+                    return fail("Quantizer(model, recipe) modified the recipe passed in", "recipe-mutated-ctor")
+                ctx.tag("load_short")
             elif act == "calibrate":
                 if not q.need_calibration:
                     continue
@@ -137,17 +190,25 @@ def history_case(ctx, drv, rng, i, n_sub):
                 rec_now = copy.deepcopy(q.get_quantization_recipe())
                 cr_in = shared_cr
                 c0 = None if cr_in is None else snap(cr_in)
+                large = rng.random() < 0.3    # the large-model serialisation path (threshold lowered by the hook) is a path like any other
+                if large:
+                    os.environ[ENVVAR] = "0"
+                    ctx.tag("large_path")
                 try:
-                    out = "OK " + hashlib.sha256(bytes(q.quantize(cr_in).quantized_model)).hexdigest()
-                except Exception as e:  # noqa: BLE001
-                    out = "RAISE " + type(e).__name__
-                if cr_in is not None and snap(cr_in) != c0:
-                    return fail("quantize() modified the calibration result passed in", "cr-mutated")
-                want = fresh_hash(mb, rec_now, cr_in)
+                    try:
+                        out = "OK " + hashlib.sha256(bytes(q.quantize(cr_in).quantized_model)).hexdigest()
+                    except Exception as e:  # noqa: BLE001
+                        out = "RAISE " + type(e).__name__
+                    if cr_in is not None and snap(cr_in) != c0:
+                        return fail("quantize() modified the calibration result passed in", "cr-mutated")
+                    want = fresh_hash(mb, rec_now, cr_in)
+                finally:
+                    os.environ.pop(ENVVAR, None)
                 ctx.tag("quantize_compared_with_fresh")
                 if out != want:
                     return fail(f"quantize() output depends on the history of the Quantizer object ({out[:20]} vs fresh {want[:20]})", "history-dependent")
-                last = (rec_now, copy.deepcopy(cr_in), out)
+                if not any(a_.startswith("policy") for _, a_ in log):   # a fresh process starts under the default policy
+                    last = (rec_now, copy.deepcopy(cr_in), out, large)
             elif act == "validate":
                 if q._result.quantized_model is None:
                     continue
@@ -165,7 +226,7 @@ def history_case(ctx, drv, rng, i, n_sub):
     if last is not None and n_sub[0] > 0:
         n_sub[0] -= 1
         for seed in (1, 4242):
-            h = subprocess_hash(mb, last[0], last[1], seed)
+            h = subprocess_hash(mb, last[0], last[1], seed, last[3])
             ctx.tag("fresh_process_compared")
             if h != last[2]:
                 return fail(f"quantize() output differs in a fresh process with PYTHONHASHSEED={seed}: {h[:24]} vs {last[2][:24]}", "process-dependent")
@@ -185,7 +246,7 @@ def run(ctx):
     drv = common.Driver()
     rng = ctx.rng
     n = 150 if ctx.tier == "quick" else 1500
-    n_sub = [2 if ctx.tier == "quick" else 25]
+    n_sub = [4 if ctx.tier == "quick" else 25]
     for i in range(n):
         if ctx.left() < 40:
             break
